@@ -29,7 +29,11 @@ fn expect(k: usize, id: u8, args: [u64; 7]) {
     unsafe {
         assert!(k < LOG_LEN, "a generator call is missing");
         assert!(LOG_ID[k] == id, "generators called in a different order / wrong generator");
-        assert!(LOG_ARGS[k] == args, "generator called with the wrong arguments");
+        let a = &LOG_ARGS[k];
+        assert!(
+            a[0] == args[0] && a[1] == args[1] && a[2] == args[2] && a[3] == args[3] && a[4] == args[4] && a[5] == args[5] && a[6] == args[6],
+            "generator called with the wrong arguments"
+        );
     }
 }
 
